@@ -385,6 +385,7 @@ def _synth_offsets(case, data):
     offs = set(struct[case['phase'] % stride::stride])
     for pick in case['picks'][:max(8, n_off // 5)]:
         offs.add(pick % (size + 1))
+    offs.update(T.note_offsets(data))      # cuts inside a multi-byte character
     offs.add(size)
     return sorted(offs)
 
@@ -502,6 +503,10 @@ def _synth_labels(out, recipe, data):
         out.labels.append('synth:batch-blocks-dropped')
     if not recipe.get('tail', True):
         out.labels.append('synth:no-tail')
+    if recipe.get('notes'):
+        out.labels.append('synth:multi-byte-characters')
+        if any(off > 4096 for off in T.note_offsets(data)):
+            out.labels.append('synth:multi-byte-characters-beyond-4KiB')
 
 
 def _run_history(out, case, work):
@@ -581,7 +586,10 @@ def _recipes():
         'head': st.one_of(st.none(), st.none(), st.integers(0, 15)),
         'eds': st.one_of(st.lists(pick, min_size=1, max_size=1), st.lists(pick, min_size=2, max_size=4),
                          st.lists(pick, min_size=2, max_size=4)),
-        'tail': st.sampled_from([True, True, False])})
+        'tail': st.sampled_from([True, True, False]),
+        'notes': st.one_of(st.just([]), st.just([]), st.lists(st.fixed_dictionaries({
+            'where': st.sampled_from(['head', 'after', 'after']), 'at': st.integers(0, 400),
+            'text': st.integers(0, 2)}), min_size=1, max_size=3))})
 
 
 def strategy(tier):
